@@ -87,7 +87,7 @@ func xzCases(c *hx.Ctx, seed int64) []xzCase {
 		cases = append(cases, xzCase{G: g, Hist: h.Hist, Seed: seed + int64(i), Tag: "hist-small"})
 	}
 	// (3) TLC call histories with large payloads, blocks >= 4096
-	big := genHistories(c, tokenSet(map[string]int{"W0": 0, "W4K": 0, "W70Kr": 2, "W70Kt": 2, "W140Kn": 2, "W300Kr": 3, "W2M": 3, "C": 0}), c.Pick(4, 5), c.Pick(4, 6), 1)
+	big := genHistories(c, tokenSet(map[string]int{"W0": 0, "W4K": 0, "W70Kr": 2, "W70Kt": 2, "W140Kn": 2, "W80Krr": 2, "W300Kr": 3, "W2M": 3, "C": 0}), c.Pick(4, 5), c.Pick(4, 6), 1)
 	r.Shuffle(len(big), func(i, j int) { big[i], big[j] = big[j], big[i] })
 	nb := c.Pick(250, 3000)
 	for i := 0; i < nb && i < len(big); i++ {
